@@ -130,7 +130,7 @@ def run_property(prop, tier="quick", seed=0, patch=None, quiet=False, only_units
             # concrete playback for failing harnesses of THIS property (inside the lock: same tree)
             for fl in out["failures"]:
                 if fl.backend == "kani" and fl.prop == prop and not getattr(fl.harness, "_pb", None):
-                    test, praw = kani.playback(t, fl.harness, log=os.path.join(WORK, "playback.%s.log" % fl.harness.name))
+                    test, praw = kani.playback(t, fl.harness, log=os.path.join(WORK, "playback.%s.log" % fl.harness.name), timeout=int(os.environ.get("VERIF_PLAYBACK_TIMEOUT", "420")))
                     fl.harness._pb = test or ""
                 if fl.backend == "kani":
                     fl.witness = getattr(fl.harness, "_pb", "") or None
